@@ -280,6 +280,16 @@ func (bkt *Bucket) checkForDump(dumpthreshold int) bool {
 func (bkt *Bucket) close() {
 	logger.Infof("closing bucket %s", bkt.Home)
 	verifPoint("close.begin")
+	// a chunk that has just been rotated away may still wait for its asynchronous flush
+	for i := 0; i < bkt.datas.newHead; i++ {
+		c := &bkt.datas.chunks[i]
+		c.Lock()
+		n := len(c.wbuf)
+		c.Unlock()
+		if n > 0 {
+			bkt.datas.flush(i, true)
+		}
+	}
 	bkt.datas.flush(-1, true)
 	datas, _ := filepath.Glob(fmt.Sprintf("%s/*.data", bkt.Home))
 	if len(datas) == 0 {
